@@ -72,7 +72,11 @@ def gen_plan(seed, tier):
   dpids = r.sample(DPID_POOL, nsw)
   cfg = {"dpids": dpids, "link_timeout": r.pick([4, 4, 10]),
          "segment": r.chance(0.3), "delay": r.chance(0.3),
-         "link_delay": r.pick([0, 0, 2]), "max_buffers": r.pick([0, 4, 100])}
+         "link_delay": r.pick([0, 0, 2]), "max_buffers": r.pick([0, 4, 100]),
+         # the components' own launch options
+         "disc_no_flow": r.chance(0.2), "disc_explicit_drop": r.chance(0.75),
+         "disc_eat_early": r.chance(0.2),
+         "st_no_flood": r.chance(0.2), "st_hold_down": r.chance(0.2)}
   nextport = {d: 1 for d in dpids}
   big = r.chance(0.3)
 
@@ -211,8 +215,17 @@ def _drive(sim, plan, known, hit):
   net.boot()
   net.link_delay_ticks = cfg.get("link_delay", 0)
   D.random = lambda: sim.ch.uniform("disc_random", 0.0, 1.0, 0.0)
-  D.launch(link_timeout=cfg["link_timeout"])
-  ST.launch()
+  D.launch(link_timeout=cfg["link_timeout"],
+           no_flow=bool(cfg.get("disc_no_flow")),
+           explicit_drop=bool(cfg.get("disc_explicit_drop", True)),
+           eat_early_packets=bool(cfg.get("disc_eat_early")))
+  ST._noflood_by_default = False
+  ST._hold_down = False
+  ST.launch(no_flood=bool(cfg.get("st_no_flood")),
+            hold_down=bool(cfg.get("st_hold_down")))
+  for k in ("disc_no_flow", "disc_eat_early", "st_no_flood", "st_hold_down"):
+    if cfg.get(k):
+      sim.probes["opt_" + k] += 1
   disc = net.core.openflow_discovery
   dpids = cfg["dpids"]
   if any(d >= (1 << 48) for d in dpids):
